@@ -976,13 +976,15 @@ class UnitDatabase(Singleton):
         if unit_info is not None:
             return unit_info
 
-        # First check if the quantity_type is a registered category
-        try:
-            category_info = self.categories_to_quantity_types[quantity_type]
-        except KeyError:
-            pass
-        else:
-            quantity_type = category_info.quantity_type
+        # First check if the quantity_type is a registered category (unless it names a quantity type:
+        # a category may be named after a quantity type other than its own)
+        if quantity_type not in self.quantity_types:
+            try:
+                category_info = self.categories_to_quantity_types[quantity_type]
+            except KeyError:
+                pass
+            else:
+                quantity_type = category_info.quantity_type
 
         try:
             quantity_types = self.quantity_types[quantity_type]
